@@ -34,7 +34,12 @@ func (o goSliceObject) getValue(index int64) (reflect.Value, bool) {
 func (o *goSliceObject) setLength(value Value) {
 	want, err := value.ToInteger()
 	if err != nil {
-		panic(err)
+		// The conversion ran script code that threw: hand the exception on.
+		var oerr *Error
+		if errors.As(err, &oerr) {
+			panic(oerr.ottoError)
+		}
+		panic(newException(stringValue(err.Error())))
 	}
 
 	if want < 0 {
@@ -131,6 +136,11 @@ func goSliceEnumerate(obj *object, all bool, each func(string) bool) {
 }
 
 func goSliceDefineOwnProperty(obj *object, name string, descriptor property, throw bool) bool {
+	if _, isData := descriptor.value.(Value); !isData && (name == propertyLength || stringToArrayIndex(name) >= 0) {
+		// An accessor (or empty) descriptor cannot describe an element or the
+		// length of a Go slice.
+		return obj.runtime.typeErrorResult(throw)
+	}
 	if name == propertyLength {
 		obj.value.(*goSliceObject).setLength(descriptor.value.(Value))
 		return true
